@@ -650,6 +650,12 @@ func c16Run(c *h.Ctx) {
 			c16Quiescent(c, id, c.Rng(id))
 		}
 	}
+	for k := 0; k < c.Pick(1, 8); k++ {
+		id := fmt.Sprintf("bigbatch%d", k)
+		if c.Case(id) {
+			c16Big(c, id, c.Rng(id))
+		}
+	}
 	n := c.Pick(6, 120)
 	for k := 0; k < n; k++ {
 		id := fmt.Sprintf("clients%d", k)
